@@ -8,18 +8,41 @@ KEYS = {"outputs", "derived", "flow_rates", "initial_population"}
 SPEC_KEYS = set()
 
 
+def directed_mixing(g, k):
+    """S-I-R with two or three full stratifications that all carry a mixing matrix: parameterised and literal matrices
+    alternate, the parameterised one first for even k (the Kronecker product follows the order of application)"""
+    r = g.rng
+    ops = [{"op": "pop", "dist": {"S": gen.dy(r, 100, 900, 0), "I": gen.dy(r, 10, 90, 0)}},
+           {"op": "flow", "kind": r.choice(["infection_frequency", "infection_density"]), "name": "inf", "param": gen.frac(r), "src": "S", "dst": "I"},
+           {"op": "flow", "kind": "transition", "name": "rec", "param": gen.frac(r), "src": "I", "dst": "R"}]
+    names = r.sample(["loc", "risk", "vac"], 2 + (k % 3 == 2))
+    for j, nm in enumerate(names):
+        strata = gen.STRATA_POOL[nm][: r.choice([2, 2, 3])]
+        mix = [[gen.frac(r) for _ in strata] for _ in strata]
+        if (j + k) % 2 == 0:
+            mix[0][0] = {"p": "kappa"}
+            mix[-1][0] = {"*": [{"p": "beta"}, "1/2"]}
+        ops.append({"op": "strat", "kind": "plain", "name": nm, "strata": strata, "comps": ["S", "I", "R"], "fadj": [], "iadj": {}, "mix": mix})
+    return {"times": ["0", "2", "1"], "comps": ["S", "I", "R"], "inf": ["I"], "ops": ops, "nonlinear": True,
+            "meta": {"flows": ["infection", "transition"], "strats": ["plain"] * len(names), "mix": len(names)}}
+
+
 def run(tier, seed):
     n = tier_n(tier, 60, 700)
     g = gen.Gen(seed * 7919 + 9)
     progs = []
+    ndirected = 0
     while len(progs) < n:
-        if g.rng.random() < 0.3:
+        if ndirected < (4 if tier == "quick" else 40) and len(progs) % 14 == 0:
+            p = directed_mixing(g, ndirected)
+            ndirected += 1
+        elif len(progs) < 8 or g.rng.random() < 0.25:
             # several mixing matrices, some given through parameters and some as literals, in either order
             p = g.program({"requests": False, "nsteps": g.rng.choice([1, 2]), "nstrat": g.rng.choice([2, 3]), "p_mix": 1.0,
-                           "nonlinear": True})
+                           "nonlinear": True, "p_full": 0.9, "min_strata": 2})
             mixed = [o for o in p["ops"] if o["op"] == "strat" and o.get("mix") is not None]
             for j, o in enumerate(mixed):
-                lit = [[(e if g.rng.random() < 0.5 else "1") if isinstance(e, str) else "3/8" for e in row] for row in o["mix"]]
+                lit = [[(e if g.rng.random() < 0.5 else gen.frac(g.rng)) if isinstance(e, str) else "3/8" for e in row] for row in o["mix"]]
                 if (j + len(progs) // 2) % 2 == 0:
                     lit[0][0] = {"p": "kappa"}
                     if len(lit) > 1:
